@@ -74,7 +74,7 @@ Fixpoint sdrop (k : nat) (s : string) : string :=
   match k, s with S k', String _ r => sdrop k' r | _, _ => s end.
 
 (* the code point encoded at the head of s and the number of continuation bytes; only canonical encodings
-   (re-encoding the code point must give back exactly the bytes read) *)
+   (re-encoding the code point must give back exactly the bytes read) of code points up to U+10FFFF *)
 Definition utf8_dec (s : string) : option (N * nat) :=
   match s with
   | EmptyString => None
@@ -82,7 +82,7 @@ Definition utf8_dec (s : string) : option (N * nat) :=
       let b0 := code c0 in
       let low (c : ascii) : N := (code c mod 64)%N in
       let try (k : nat) (cp : N) : option (N * nat) :=
-        if String.eqb (utf8_enc cp) (stake (S k) s) then Some (cp, k) else None in
+        if String.eqb (utf8_enc cp) (stake (S k) s) && (cp <=? 1114111)%N then Some (cp, k) else None in
       (if b0 <? 192 then None
        else if b0 <? 224 then
          match r with String c1 _ => try 1%nat ((b0 - 192) * 64 + low c1) | _ => None end
